@@ -138,6 +138,9 @@ func NormCDF(z float64) (float64, bool) {
 // verified numerically against TCDF in this package's tests). phi is Φ(x)
 // supplied by the caller (e.g. from NormCDF).
 func TCDFNormalLimit(nu, x, phi float64) (val, bound float64) {
+	if math.Abs(x) > 40 { // φ(x)·x³ < 1e-340: the correction vanishes (and x³ may overflow)
+		return phi, 0.5 / (nu * nu)
+	}
 	return phi - NormDensity(x)*(x+x*x*x)/(4*nu), 0.5 / (nu * nu)
 }
 
